@@ -551,7 +551,8 @@ fn obs_json(w: &World, s: &mut String) {
     }
     let _ = write!(
         s,
-        "],\"blocks\":{},\"bytes\":{}}}",
+        "],\"badrel\":{},\"blocks\":{},\"bytes\":{}}}",
+        unsafe { track::NBADREL },
         unsafe { track::LIVE_BLOCKS },
         unsafe { track::LIVE_BYTES }
     );
@@ -1501,7 +1502,7 @@ fn drive_script(rng: &mut SmallRng, len: usize, nobj: u32, profile: &str, script
     let consume = profile == "consume" || profile == "std";
     let stdp = profile == "std";
     let mut scripted = 0u32;
-    let cons: &[&str] = &["TryUnwrap", "GetMut", "MakeMut", "MakeMutS", "MakeMutP", "IntoRaw", "FromRaw", "IncStrong", "DecStrong", "DropDetached", "TryUnwrap"];
+    let cons: &[&str] = &["Misc", "TryUnwrap", "GetMut", "MakeMut", "MakeMutS", "MakeMutP", "IntoRaw", "FromRaw", "IncStrong", "DecStrong", "DropDetached", "TryUnwrap"];
     let mut done: Vec<Op> = Vec::new();
     let order = profile == "order";
     let build: &[&str] = if stdp {
